@@ -196,3 +196,171 @@ Definition run_paths (l : list N) : list N :=
       (match file_name pa with Some n => 1 :: n | None => [0] end)
   | [] => [9]
   end.
+
+(* ------------------------------------------------------------------ *)
+(* tree walker (C02 C08 C13 C16 C17)                                    *)
+(* ------------------------------------------------------------------ *)
+From XcpModel Require Import Walker.
+
+(* rel encoding: [ncomp; (len; bytes)*] *)
+Fixpoint decode_rel_go (n : nat) (l : list N) : rel * list N :=
+  match n, l with
+  | S k, len :: r => let '(nm, r1) := take_drop (N.to_nat len) r in
+                     let '(rest, r2) := decode_rel_go k r1 in (nm :: rest, r2)
+  | _, _ => ([], l)
+  end.
+Definition decode_rel (l : list N) : rel * list N :=
+  match l with n :: r => decode_rel_go (N.to_nat n) r | [] => ([], []) end.
+
+Fixpoint decode_rels (n : nat) (l : list N) : list rel * list N :=
+  match n with
+  | O => ([], l)
+  | S k => let '(r, l1) := decode_rel l in let '(rs, l2) := decode_rels k l1 in (r :: rs, l2)
+  end.
+
+Fixpoint encode_rel (r : rel) : list N :=
+  N.of_nat (length r) :: flat_map (fun n => N.of_nat (length n) :: n) r.
+
+(* tree encoding (pre-order):
+   0 len | 1 nchildren (namelen name node)* | 2 textlen text res | 3 ft | 4 ft
+   res: 0 dangling | 1 loop | 2 node *)
+Fixpoint decode_tree (fuel : nat) (l : list N) : option (tree * list N) :=
+  match fuel with
+  | O => None
+  | S f =>
+      match l with
+      | 0 :: len :: r => Some (TFile len, r)
+      | 1 :: nc :: r =>
+          (fix kids (k : nat) (l : list N) (acc : list (name * tree)) : option (tree * list N) :=
+             match k with
+             | O => Some (TDir (rev acc), l)
+             | S k' =>
+                 match l with
+                 | nl :: r1 =>
+                     let '(nm, r2) := take_drop (N.to_nat nl) r1 in
+                     match decode_tree f r2 with
+                     | Some (c, r3) => kids k' r3 ((nm, c) :: acc)
+                     | None => None
+                     end
+                 | [] => None
+                 end
+             end) (N.to_nat nc) r []
+      | 2 :: tl :: r =>
+          let '(text, r1) := take_drop (N.to_nat tl) r in
+          match r1 with
+          | 0 :: r2 => Some (TLink text LDangling, r2)
+          | 1 :: r2 => Some (TLink text LLoop, r2)
+          | 2 :: r2 => match decode_tree f r2 with
+                       | Some (t, r3) => Some (TLink text (LTarget t), r3)
+                       | None => None
+                       end
+          | _ => None
+          end
+      | 3 :: ft :: r => Some (TSpecial ft, r)
+      | 4 :: ft :: r => Some (TOther ft, r)
+      | _ => None
+      end
+  end.
+
+Definition encode_wact (a : wact) : list N :=
+  match a with
+  | WSize n => [0; n]
+  | WCopy r len => 1 :: len :: encode_rel r
+  | WLink r text => 2 :: N.of_nat (length text) :: text ++ encode_rel r
+  | WMkdir r => 3 :: encode_rel r
+  | WSpecial r ft => 4 :: ft :: encode_rel r
+  | WErr c r => 5 :: c :: encode_rel r
+  end.
+
+Definition rel_in (l : list rel) (r : rel) : bool := existsb (rel_eqb r) l.
+
+(* [no_clobber; deref; n_ignored; rels; n_exists; rels; tree] -> [ok; wf] ++ actions *)
+Definition run_walk (l : list N) : list N :=
+  match l with
+  | nc :: dr :: ni :: r =>
+      let '(ign, r1) := decode_rels (N.to_nat ni) r in
+      match r1 with
+      | ne :: r2 =>
+          let '(ex, r3) := decode_rels (N.to_nat ne) r2 in
+          match decode_tree (length r3) r3 with
+          | Some (t, _) =>
+              let '(acts, ok) := walk (mkW (negb (nc =? 0)) (negb (dr =? 0)))
+                                      (fun q _ => negb (rel_in ign q)) (rel_in ex) [] t in
+              b2n ok :: b2n (tree_wf t) :: flat_map encode_wact acts
+          | None => [8]
+          end
+      | [] => [9]
+      end
+  | _ => [9]
+  end.
+
+(* ------------------------------------------------------------------ *)
+(* main() validation (C16)                                              *)
+(* ------------------------------------------------------------------ *)
+From XcpModel Require Import Main.
+
+Fixpoint decode_bstrs (n : nat) (l : list N) : list name * list N :=
+  match n, l with
+  | S k, len :: r => let '(b, r1) := take_drop (N.to_nat len) r in
+                     let '(bs, r2) := decode_bstrs k r1 in (b :: bs, r2)
+  | _, _ => ([], l)
+  end.
+
+(* table rows: len bytes exists isdir ino *)
+Fixpoint decode_table (n : nat) (l : list N) : list (path * (bool * bool * N)) :=
+  match n, l with
+  | S k, len :: r =>
+      let '(b, r1) := take_drop (N.to_nat len) r in
+      match r1 with
+      | ex :: d :: ino :: r2 => (parse_path b, (negb (ex =? 0), negb (d =? 0), ino)) :: decode_table k r2
+      | _ => []
+      end
+  | _, _ => []
+  end.
+
+Fixpoint tlookup (t : list (path * (bool * bool * N))) (p : path) : bool * bool * N :=
+  match t with
+  | [] => (false, false, 0)
+  | (q, v) :: r => if path_eqb q p then v else tlookup r p
+  end.
+
+Fixpoint decode_oracle (n : nat) (l : list N) : list glob_result * list N :=
+  match n, l with
+  | S k, 0 :: r => let '(o, r1) := decode_oracle k r in (None :: o, r1)
+  | S k, 1 :: m :: r =>
+      let '(bs, r1) := decode_bstrs (N.to_nat m) r in
+      let '(o, r2) := decode_oracle k r1 in (Some (map parse_path bs) :: o, r2)
+  | _, _ => ([], l)
+  end.
+
+(* [rec notd nc force glob has_td; td_len td...; npaths; paths; noracle; oracle; ntable; table] -> [code] (0 = proceed) *)
+Definition run_validate (l : list N) : list N :=
+  match l with
+  | rc :: nt :: nc :: fc :: gl :: htd :: tdl :: r =>
+      let '(td, r1) := take_drop (N.to_nat tdl) r in
+      match r1 with
+      | np :: r2 =>
+          let '(ps, r3) := decode_bstrs (N.to_nat np) r2 in
+          match r3 with
+          | no :: r4 =>
+              let '(orc, r5) := decode_oracle (N.to_nat no) r4 in
+              match r5 with
+              | ntab :: r6 =>
+                  let tab := decode_table (N.to_nat ntab) r6 in
+                  let ex := fun p => fst (fst (tlookup tab p)) in
+                  let isd := fun p => snd (fst (tlookup tab p)) in
+                  let same := fun a b => let ia := snd (tlookup tab a) in negb (ia =? 0) && (ia =? snd (tlookup tab b)) in
+                  let o := mkOpts (negb (rc =? 0)) (negb (nt =? 0)) (negb (nc =? 0)) (negb (fc =? 0)) (negb (gl =? 0))
+                                  (if htd =? 0 then None else Some (parse_path td)) in
+                  match front ex isd same o (map parse_path ps) orc with
+                  | (Some e, _, _) => [e]
+                  | (None, srcs, _) => [0; N.of_nat (length srcs)]
+                  end
+              | [] => [9]
+              end
+          | [] => [9]
+          end
+      | [] => [9]
+      end
+  | _ => [9]
+  end.
